@@ -568,6 +568,40 @@ def _is_boolish(e: ast.AST) -> bool:
 # ----------------------------------------------------------------------------- tiny concrete evaluator
 
 
+class Vec(tuple):
+    """a small concrete vector for folding element-wise array expressions (test vectors such as (1, 3) vs (2, 2)):
+    arithmetic and comparisons act element-wise, the truth value of a vector with more than one element is undefined"""
+
+    def _zip(self, o):
+        if isinstance(o, Vec):
+            if len(o) != len(self):
+                raise Unknown("shape mismatch")
+            return zip(self, o)
+        return ((a, o) for a in self)
+
+    def __add__(self, o): return Vec(a + b for a, b in self._zip(o))
+    def __radd__(self, o): return Vec(b + a for a, b in self._zip(o))
+    def __sub__(self, o): return Vec(a - b for a, b in self._zip(o))
+    def __rsub__(self, o): return Vec(b - a for a, b in self._zip(o))
+    def __mul__(self, o): return Vec(a * b for a, b in self._zip(o))
+    def __rmul__(self, o): return Vec(b * a for a, b in self._zip(o))
+    def __truediv__(self, o): return Vec(a / b for a, b in self._zip(o))
+    def __neg__(self): return Vec(-a for a in self)
+    def __lt__(self, o): return Vec(a < b for a, b in self._zip(o))
+    def __le__(self, o): return Vec(a <= b for a, b in self._zip(o))
+    def __gt__(self, o): return Vec(a > b for a, b in self._zip(o))
+    def __ge__(self, o): return Vec(a >= b for a, b in self._zip(o))
+    def __eq__(self, o): return Vec(a == b for a, b in self._zip(o))  # noqa: E704
+    def __ne__(self, o): return Vec(a != b for a, b in self._zip(o))
+    def __invert__(self): return Vec(not a for a in self)
+    __hash__ = tuple.__hash__
+
+    def __bool__(self):
+        if len(self) == 1:
+            return bool(self[0])
+        raise Unknown("truth value of a vector")
+
+
 NUMPY_SCALAR_TRANSPARENT = ("asarray", "atleast_1d", "array", "float64", "squeeze", "any", "all", "asanyarray", "abs")
 CONST_METHODS = ("index", "count", "get", "keys", "values", "items", "startswith", "endswith", "lower", "upper", "strip", "split", "bit_length", "copy")
 _NOVALUE = object()
@@ -627,6 +661,13 @@ def ceval(expr: ast.AST, env: dict):
         return expr.value
     if isinstance(expr, ast.Name):
         raise Unknown(expr.id)
+    if isinstance(expr, ast.Attribute) and expr.attr in ("ndim", "size", "shape"):
+        try:
+            base = ceval(expr.value, env)
+        except Unknown:
+            base = None
+        if isinstance(base, Vec):
+            return {"ndim": 1, "size": len(base), "shape": (len(base),)}[expr.attr]
     if isinstance(expr, ast.Attribute):
         d = dotted(expr) or ""
         head = d.split(".")[0]
@@ -661,6 +702,15 @@ def ceval(expr: ast.AST, env: dict):
         if len(expr.args) == 3:
             return ceval(expr.args[2], env)
         raise Unknown(key)
+    if isinstance(expr, ast.Call) and isinstance(expr.func, ast.Attribute) and expr.func.attr in ("any", "all", "min", "max", "sum") and not expr.args and not expr.keywords:
+        try:
+            base = ceval(expr.func.value, env)
+        except Unknown:
+            base = None
+        if isinstance(base, Vec):
+            import builtins
+
+            return getattr(builtins, expr.func.attr)(bool(x) if expr.func.attr in ("any", "all") else x for x in base)
     if isinstance(expr, ast.Call) and isinstance(expr.func, ast.Attribute) and expr.func.attr in CONST_METHODS and not expr.keywords:
         try:
             base = ceval(expr.func.value, env)
@@ -699,7 +749,12 @@ def ceval(expr: ast.AST, env: dict):
             table = {ast.Lt: op.lt, ast.LtE: op.le, ast.Gt: op.gt, ast.GtE: op.ge, ast.Eq: op.eq, ast.NotEq: op.ne, ast.Is: op.is_, ast.IsNot: op.is_not}
             for k, f in table.items():
                 if isinstance(o, k):
-                    if not f(left, right):
+                    r_ = f(left, right)
+                    if isinstance(r_, Vec):
+                        if len(expr.ops) == 1:
+                            return r_
+                        raise Unknown("chained comparison of vectors")
+                    if not r_:
                         return False
                     break
             else:
@@ -758,9 +813,22 @@ def ceval(expr: ast.AST, env: dict):
     if isinstance(expr, ast.Call) and (dotted(expr.func) or "").split(".")[0] in ("np", "numpy") and (dotted(expr.func) or "").split(".")[-1] in NUMPY_SCALAR_TRANSPARENT and len(expr.args) >= 1:
         # on a scalar these numpy functions return (the truth value of) their argument
         v = ceval(expr.args[0], env)
+        nm = (dotted(expr.func) or "").split(".")[-1]
+        if isinstance(v, Vec):
+            if nm == "any":
+                return any(bool(x) for x in v)
+            if nm == "all":
+                return all(bool(x) for x in v)
+            if nm == "abs":
+                return Vec(abs(x) for x in v)
+            return v
         if isinstance(v, (bool, int, float)):
-            nm = (dotted(expr.func) or "").split(".")[-1]
             return bool(v) if nm in ("any", "all") else v
+        raise Unknown(txt)
+    if isinstance(expr, ast.Call) and (dotted(expr.func) or "").split(".")[0] in ("np", "numpy") and (dotted(expr.func) or "").split(".")[-1] == "diff" and len(expr.args) == 1 and not expr.keywords:
+        v = ceval(expr.args[0], env)
+        if isinstance(v, Vec):
+            return Vec(b - a for a, b in zip(v, v[1:]))
         raise Unknown(txt)
     if isinstance(expr, ast.Call) and isinstance(expr.func, ast.Name) and expr.func.id in ("bool", "int", "str") and len(expr.args) == 1:
         return {"bool": bool, "int": int, "str": str}[expr.func.id](ceval(expr.args[0], env))
